@@ -14,10 +14,10 @@ import sys
 import time
 
 ROOT = os.path.dirname(os.path.dirname(os.path.abspath(__file__)))
-COQ = os.path.join(ROOT, "coq")
+COQ = os.environ.get("VERIF_COQ_DIR") or os.path.join(ROOT, "coq")
 REPO = os.environ.get("PYMWP_REPO", "/repo")
-EVID = os.path.join(ROOT, "evidence")
-REPLAYS = os.path.join(ROOT, "replays")
+EVID = os.environ.get("VERIF_EVID_DIR") or os.path.join(ROOT, "evidence")
+REPLAYS = os.environ.get("VERIF_REPLAY_DIR") or os.path.join(ROOT, "replays")
 CORPUS = os.path.join(ROOT, "corpus")
 PY = "/venv/bin/python"
 COQ_TIMEOUT = int(os.environ.get("VERIF_COQ_TIMEOUT", "1500"))
